@@ -35,6 +35,9 @@ def run(ctx: Ctx):
     flags(ctx)
     nan_classes(ctx)
     wave_diff(ctx)
+    from .common import index_space_lints
+
+    index_space_lints(ctx, "index-space", ['matrix/subtotals.py', 'stripe/insertion.py'], words=None)
 
 
 def _bind(*names):
@@ -190,6 +193,17 @@ def index_resolution(ctx: Ctx):
     ctx.check_expr("index-resolution", "dimension.py::_Subtotal.subtrahend_ids", e, "tuple((arg for arg in self._subtotal_dict.get('kwargs', {}).get('negative', []) if arg in self._valid_elements.element_ids))")
     e = expand(ctx.repo, ci, "is_difference", stop=lambda m: True)
     ctx.check_expr("index-resolution", "dimension.py::_Subtotal.is_difference", e, "bool(self.subtrahend_ids)")
+    # dependence (whatever the spelling): which terms exist - and hence whether the insertion IS a difference - is
+    # decided against the VALID elements; an id that is missing or no longer exists contributes nothing, so an
+    # insertion whose negative ids are all stale is a plain subtotal in every respect.
+    for member, what in (("addend_ids", "addends"), ("subtrahend_ids", "subtrahends"), ("is_difference", "difference-ness"), ("addend_idxs", "addend positions"), ("subtrahend_idxs", "subtrahend positions")):
+        if ctx.repo.lookup(ci, member) is None:
+            ctx.undecided("index-resolution.valid-dependence", f"dimension.py::_Subtotal.{member}", "member not found", "")
+            continue
+        full = expand(ctx.repo, ci, member)
+        dep = "self._valid_elements" in u(full)
+        ctx.ob("index-resolution.valid-dependence", f"dimension.py::_Subtotal.{member}", "depends on self._valid_elements" if dep else u(full)[:140], f"{what} are resolved against the valid elements", dep,
+               "decided from the raw definition alone, an insertion whose ids are all stale / missing would still count as having those terms")
     st = ctx.repo.cls("dimension.py", "_Subtotals")
     from ..stmts import collect_test_atoms, match_atom
 
